@@ -833,6 +833,12 @@ def _n2n(a, copy=True, nan=0.0, posinf=None, neginf=None):
         return SR(r_ite(x.nan, frac(nan), x.v))
 
     r = elementwise(f, a)
+    if copy is False and isinstance(a, SymArray):
+        # in-place variant: NumPy writes into the argument (a view shares its memory with the parent)
+        if not a.flags.writeable:
+            raise ValueError("assignment destination is read-only")
+        a.a[...] = r
+        return a
     return W(r) if isinstance(r, np.ndarray) else r
 
 
